@@ -6,6 +6,30 @@ import os
 ROOT = os.path.dirname(os.path.dirname(os.path.abspath(__file__)))
 
 CHECKS = {
+    "C09": dict(
+        cat="other", engine="Effects",
+        text="spec/Effects.tla is a trace specification with an action only for allowed effects (read-only OS opens, read-side methods on "
+             "caller handles, read-only or private-buffer call sites, unchanged evidence directory, the CLI's single writer); TLC validates "
+             "three event streams against it: sys.addaudithook events plus before/after content hashes during path-based workloads (VHDX "
+             "chains, VMDK descriptors with every extent type and access mode and a parent, Parallels HDD directories, vmtar by path, the "
+             "envelope CLI succeeding and failing), method logs of writable-claiming caller handles for every handle-based parser (incl. a "
+             "Hyper-V file with a dirty replay log), and an AST inventory of every open / mutating call site of the package.",
+        note="TLA+ does not analyse code: the AST pass is an event source and the specification judges events; dynamic coverage is the listed "
+             "workloads, other paths are covered by the call-site inventory only",
+        technique="TLA+ trace specification of allowed effects; TLC validation of audit-hook, handle-method and AST call-site event streams",
+        design="5/C09"),
+    "C13": dict(
+        cat="model_checking", engine="IoCost",
+        text="spec/IoCost.tla models a reader with a table cache (header once, tables covering the request at most once while cached, data "
+             "for the request plus buffer slack) with the invariant CostBound checked by TLC, and judges recorded I/O logs (RunOK); multi-"
+             "terabyte images on sparse virtual files (QCOW2 64 TiB with tables beyond 2^41 and data near 2^54, SE-sparse 20 TiB with grains "
+             "beyond sector 2^36, hosted VMDK > 2^32 sectors, VHDX 64 TiB with MB offsets near 2^38, VHD at the 32-bit sector limit, VDI "
+             "2 TiB, HDS 1-4 TiB) are opened and read at extreme offsets: content is compared byte for byte and the logs of every read of "
+             "the backing file are validated by TLC against the bound and against a densely allocated twin.",
+        note="Meta counts all mapping tables (eager metadata loading is allowed by the property), so the bound is weak for formats that "
+             "load a whole table at open; Align is the default 8 KiB buffer",
+        technique="TLA+ cost model + TLC; I/O logs of multi-terabyte virtual images validated by TLC, content replay at extreme offsets",
+        design="5/C13"),
     "C12": dict(
         cat="model_checking", engine="Gates",
         text="spec/Gates.tla models every parser's open sequence as a chain of gates in code order and TLC checks AcceptImpliesSupported, "
